@@ -181,7 +181,7 @@ def _connect(c, loop, g, wr, tap, mode, direct, indirect, addr, typ, decoy, canc
             dec = {'user': g.text('decoy.username', len(PEER)), 'ip': g.ip('decoy.ip'), 'port': g.word('decoy.port', 32),
                    'amount': g.word('decoy.obfuscated_port_amount', 32), 'obf': g.word('decoy.obfuscated_port', 16)}
     else:
-        given = {'ip': g.ip('given.ip'), 'port': g.word('given.port', 16), 'obfuscate': bool(c.fresh_bool('given.obfuscate'))}
+        given = {'ip': g.ip('given.ip'), 'port': g.word('given.port', 32), 'obfuscate': bool(c.fresh_bool('given.obfuscate'))}
 
     events = []
     for j, (off, kind, tk) in enumerate(script):
@@ -198,6 +198,7 @@ def _connect(c, loop, g, wr, tap, mode, direct, indirect, addr, typ, decoy, canc
         # business of the other jobs
         if addr == 'given':
             c.assume(given['port'] >= 1)
+            c.assume(given['port'] <= 65535)
 
     # ---- reference: does a path work? ---------------------------------------------------------------------------
     if addr == 'server':
@@ -774,7 +775,7 @@ META = {
     'data_variables': [
         'request ticket (ticket generator position, 32 bit)', 'ticket of every scripted PeerPierceFirewall / CannotConnect notice (32 bit)',
         'GetPeerAddress answer: ip (4 octets), clear port (uint32), obfuscated port amount, obfuscated port (uint16); user name of the '
-        'preceding foreign answer (2 UTF-8 bytes) and its address', 'caller-supplied ip / port (16 bit)', 'obfuscation keys (4 bytes per frame)',
+        'preceding foreign answer (2 UTF-8 bytes) and its address', 'caller-supplied ip / port (32 bit: e.g. the uint32 port of a PotentialParents entry)', 'obfuscation keys (4 bytes per frame)',
         'ConnectToPeer request from the server: user name (2 bytes), type (1 byte), ip, port, ticket, privileged, obfuscated port amount / port',
         'select_port: both ports (32 bit)'],
     'discriminants': [
@@ -819,7 +820,7 @@ PIERCING = ('pierce_fast', 'pierce_slow', 'cannot_fast', 'stranger_then_pierce',
 
 def _requires(mode, d, i, addr):
     """vacuity guard: what this scenario must have exercised"""
-    req = ['request_started', 'scenario_end', 'direct_attempted']
+    req = ['request_started', 'scenario_end', 'direct_attempted'] + (['port_beyond_65535_rejected'] if addr == 'given' else [])
     hangs = (mode, i, addr) == ('race', 'send_fails', 'server')      # (unrepaired tree: the request never ends there)
     if d == 'tie' or i in TIES:
         return req + ([] if hangs else ['request_ended'])       # deliberate ties: either outcome is fine
